@@ -76,6 +76,8 @@ def wire_of_key(key, cfg):
 
 
 def expected_value(v, cfg, spec):
+    if spec is not None and spec[0] == "text-deserializer":
+        return v if isinstance(v, str) else str(v) if not isinstance(v, bytes) else v.decode(cfg.get("encoding", "ascii"))
     if spec is None:
         if isinstance(v, bytes):
             return v
@@ -96,12 +98,23 @@ def _check(case, env):
     absent = list(case.get("absent", ()))
     srv = env.server
     kw = dict(cfg)
-    sd = make_serde(spec)
+    if spec is not None and spec[0] == "text-deserializer":
+        # a text cache in the legacy spelling: no serializer (str values are encoded by the client), only a function that
+        # decodes what comes back
+        enc_ = cfg.get("encoding", "ascii")
+        sd = None
+        kw["deserializer"] = lambda key, value, flags: value.decode(enc_)
+    else:
+        sd = make_serde(spec)
     if sd is not None:
-        kw["serde"] = sd
+        if case.get("serde_as") == "functions":
+            # the same serializer handed over as the two legacy functions
+            kw["serializer"], kw["deserializer"] = sd.serialize, sd.deserialize
+        else:
+            kw["serde"] = sd
     c = env.client(kind, **kw)
-    desc = "%s cfg=%r serde=%r store=%s fetch=%s coll=%s keys=%r" % (
-        kind, cfg, spec, case["store"], case["fetch"], case.get("coll"), [k if len(k) < 30 else (k[:10], len(k)) for k, _ in items])
+    desc = "%s cfg=%r serde=%r%s store=%s fetch=%s coll=%s keys=%r" % (
+        kind, cfg, spec, " (as serializer=/deserializer= functions)" if case.get("serde_as") == "functions" else "", case["store"], case["fetch"], case.get("coll"), [k if len(k) < 30 else (k[:10], len(k)) for k, _ in items])
     nr = case.get("noreply", False)
 
     def call(fn, *a, **k):
@@ -336,7 +349,8 @@ def case_strategy(draw, tier="quick"):
     pieces = draw(st.one_of(st.none(), st.lists(st.sampled_from([1, 2, 3, 7, 13, 4095, 4096, 1 << 30]), min_size=1, max_size=6)))
     return {"kind": kind, "cfg": cfg, "serde": spec, "items": items, "absent": absent, "store": store, "fetch": fetch,
             "coll": coll, "pieces": pieces, "noreply": draw(st.booleans()), "respell": draw(st.booleans()),
-            "event": draw(st.sampled_from([None, None, "close", "outage"]))}
+            "event": draw(st.sampled_from([None, None, "close", "outage"])),
+            "serde_as": draw(st.sampled_from(["object", "object", "functions"]))}
 
 
 def grid_cases(tier, seed):
@@ -404,6 +418,18 @@ def grid_cases(tier, seed):
                     yield {"kind": kind, "cfg": {"key_prefix": pfx, "allow_unicode_keys": True, "encoding": "utf-8"}, "serde": spec,
                            "items": [["a", ("bytes", b"raw\r\nbytes")], [b"b", ("str", "zw\u00f6lf")], ["\u00fc", ("int", 3)], ["d", ("noise", 5000, 1)]], "absent": ["nope"],
                            "store": "set_many" if pfx else "set", "fetch": "get_many" if kind.startswith("hash") else "gets", "coll": "list", "pieces": [4096], "noreply": not pfx, "event": ev}
+    # the legacy spellings of a serializer: the two functions instead of the object, and a deserializer function alone
+    for kind in ("client", "pooled", "hash", "hash-pooled"):
+        for fetch in ("get", "gets", "gat", "gats", "get_many", "gets_many"):
+            for spec in (("json",), ("pickle", 2), ("compressed", 10)):
+                yield {"kind": kind, "cfg": {"key_prefix": b"", "allow_unicode_keys": False, "encoding": "ascii"}, "serde": spec, "serde_as": "functions",
+                       "items": [["a", ("bytes", b"raw")], ["b", ("str", "zw\u00f6lf")], ["c", ("int", 3)], ["d", ("list", [("int", 1), ("int", 2)])]], "absent": ["nope"],
+                       "store": "set_many" if fetch.endswith("many") else "set", "fetch": fetch, "coll": "list", "pieces": None, "noreply": False}
+            for enc in ("utf-8", "latin-1", "ascii"):
+                txt = {"utf-8": "zw\u00f6lf \u20ac", "latin-1": "zw\u00f6lf", "ascii": "twelve"}[enc]
+                yield {"kind": kind, "cfg": {"key_prefix": b"txt:", "allow_unicode_keys": False, "encoding": enc}, "serde": ("text-deserializer",),
+                       "items": [["a", ("str", txt)], ["b", ("str", "")], ["c", ("int", 12)]], "absent": ["nope"],
+                       "store": "set", "fetch": fetch, "coll": "list", "pieces": None, "noreply": False}
     # every key-collection type x every multi-key fetch x every client kind
     for coll in ("list", "tuple", "set", "dictview", "iter", "generator"):
         for fetch in ("get_many", "gets_many"):
